@@ -114,6 +114,24 @@ def _lane_cands(eb):
     return out
 
 
+def _msb_sweep(eb):
+    M = (1 << eb) - 1
+    out = []
+    for h in range(eb):
+        b = 1 << h
+        for x in (b, (b << 1) - 1, b | 1, b | (b >> 1), b | (b >> 1) | 1, (b << 1) - 2 if h else b,
+                  b | ((b - 1) & (0x5555555555555555 & M)), M & ~((b << 1) - 1), b | (M & ~((b << 1) - 1) & (M >> 1))):
+            for y in (x & M, ~x & M):
+                out.append(y)
+    seen = set()
+    res = []
+    for x in out:
+        if x not in seen:
+            seen.add(x)
+            res.append(x)
+    return res
+
+
 def gen_envs(argspecs, seed=0, limit=2600):
     """argspecs: list of (bits, lane_bits, domain) per IR argument.  Yields
     argument vectors: uniform vectors for every pair of lattice values
@@ -122,21 +140,46 @@ def gen_envs(argspecs, seed=0, limit=2600):
     rnd = random.Random(seed)
     cands = [(_lane_cands(lb) if lb else None) for (b, lb, dom) in argspecs]
     nl = [((b // lb) if lb else 1) for (b, lb, dom) in argspecs]
-    C = max([len(c) for c in cands if c] + [1])
     nargs = sum(1 for c in cands if c)
+    if nargs <= 1:
+        # one data argument: the lattice can afford a sweep over the position of the highest / lowest
+        # set bit (bit-counting and int->float emulations branch on exactly that)
+        # (lanes of <= 16 bits are decided by the truth table instead)
+        cands = [(c + [x for x in _msb_sweep(argspecs[i][1]) if x not in set(c)]) if c and argspecs[i][1] > 16 else c
+                 for i, c in enumerate(cands)]
+    C = max([len(c) for c in cands if c] + [1])
     shapes = []
     if nargs <= 1:
         for s in range(C):
             shapes.append(("uni", s, s))
     else:
-        for s in range(C):
-            for t in range(C):
+        # all pairs of the first 25 (half-word boundary combinations: carries, sign bits) first, then the
+        # remaining pairs in a fixed pseudo-random order, so that a work budget that only reaches a prefix
+        # still samples every value of both arguments
+        core = min(C, 25)
+        for s in range(core):
+            for t in range(core):
                 shapes.append(("uni", s, t))
+        rest = [("uni", s, t) for s in range(C) for t in range(C) if s >= core or t >= core]
+        random.Random(20240917).shuffle(rest)
+        shapes += rest
+    others = []
     for s in range(C):
         for k in (1, 3, 5):
-            shapes.append(("rot", s, k))
+            others.append(("rot", s, k))
     for i in range(60):
-        shapes.append(("rnd", i, 0))
+        others.append(("rnd", i, 0))
+    # interleave: vectors whose lanes differ must be reached even when the work budget only allows a
+    # prefix of the list (cross-lane mix-ups are invisible on uniform vectors)
+    uni = shapes
+    shapes = []
+    oi = 0
+    for i, sh_ in enumerate(uni):
+        shapes.append(sh_)
+        if i % 3 == 2 and oi < len(others):
+            shapes.append(others[oi])
+            oi += 1
+    shapes += others[oi:]
     count = 0
     for sh in shapes:
         args = []
@@ -163,6 +206,7 @@ def gen_envs(argspecs, seed=0, limit=2600):
             break
 
 
+EXTRA_POINTS = [None]   # rule-specific paired lane values [{argname: lane value}], tried first (uniform vectors)
 NUMEQ = [False]     # compare float lanes as numbers (+0 == -0): set by rules whose statement says "same number"
 
 
@@ -189,11 +233,131 @@ def find_witness(actual, expected, argspecs, names=None, lane_bits=None, seed=0,
     return None
 
 
+def _cross_lane_envs(actual, argspecs, lane_bits):
+    """targeted probes: when the closed form of output lane i mentions bits of lane j != i of a vector
+    argument, vary only lane j over lattice values on a few uniform backgrounds.  (Mentioning is not
+    depending - the probes are only candidates; the verdict still comes from evaluating both forms.)"""
+    if not lane_bits or actual[1] % lane_bits or actual[1] == lane_bits:
+        return
+    n = actual[1] // lane_bits
+    pairs = []
+    for i in sorted({0, 1, n // 2, n - 1}):
+        if i >= n:
+            continue
+        lt = T.slice_(actual, i * lane_bits, lane_bits)
+        for lf in T.leaves(lt, ("arg",)):
+            k = lf[2]
+            if k >= len(argspecs):
+                continue
+            b, lb, dom = argspecs[k]
+            if not lb or b // lb != n:
+                continue
+            for j in {lf[3] // lb, (lf[3] + lf[1] - 1) // lb}:
+                if j != i and (k, j) not in pairs:
+                    pairs.append((k, j))
+        if len(pairs) >= 6:
+            break
+    if not pairs:
+        return
+    for k, j in pairs[:6]:
+        lb = argspecs[k][1]
+        vals = _lane_cands(lb)
+        LM = (1 << lb) - 1
+        pv = [vals[x % len(vals)] for x in (1, 4, 6, 12, 18, 24, 3, 9, 20, 30, 33)] + [LM, (LM >> 1) + 1, 0x0123456789ABCDEF & LM]
+        for bg in (1, 3, LM, (LM >> 1), 0x00010003 & LM or 5):
+            for v in pv:
+                args = []
+                for ai, (b, l2, dom) in enumerate(argspecs):
+                    if not l2:
+                        args.append(bg & ((1 << b) - 1) if b <= 64 else 0)
+                        continue
+                    x = 0
+                    for l in range(b // l2):
+                        x |= (bg & ((1 << l2) - 1)) << (l * l2)
+                    if ai == k:
+                        x = (x & ~(LM << (j * lb))) | (v << (j * lb))
+                    if dom:
+                        x = dom(x)
+                    args.append(x)
+                yield args
+
+
+def _dep_diff_envs(actual, expected, argspecs):
+    """targeted probes: argument bits that one closed form mentions and the other does not.  If the form
+    that mentions bit j really depends on it, flipping j on some background separates the two forms; the
+    backgrounds tried are all-ones, all-zeros and alternating patterns (the neutral elements of the
+    and/or/compare reductions such forms are made of)."""
+    cov = []
+    for t in (actual, expected):
+        c = {}
+        for lf in T.leaves(t, ("arg",)):
+            if lf[2] < len(argspecs):
+                c[lf[2]] = c.get(lf[2], 0) | (((1 << lf[1]) - 1) << lf[3])
+        cov.append(c)
+    out = 0
+    for k in sorted(set(cov[0]) | set(cov[1])):
+        diff = cov[0].get(k, 0) ^ cov[1].get(k, 0)
+        if not diff:
+            continue
+        bits = argspecs[k][0]
+        FM = (1 << bits) - 1
+        runs = []
+        b = 0
+        while b < bits and len(runs) < 6:
+            if (diff >> b) & 1:
+                e = b
+                while e < bits and (diff >> e) & 1:
+                    e += 1
+                runs.append((b, e))
+                b = e
+            else:
+                b += 1
+        for bg in (FM, 0, 0x5555555555555555555555555555555555555555555555555555555555555555555555555555555555 & FM,
+                   0xAAAAAAAAAAAAAAAAAAAAAAAAAAAAAAAAAAAAAAAAAAAAAAAAAAAAAAAAAAAAAAAAAAAAAAAAAAAAAAAAAAAAAAAAAA & FM):
+            for (b0, e0) in runs:
+                for fl in (((1 << (e0 - b0)) - 1) << b0, 1 << b0, 1 << (e0 - 1)):
+                    args = []
+                    for ai, (bt, lb, dom) in enumerate(argspecs):
+                        AM = (1 << bt) - 1
+                        v = (bg & AM) if bt <= bits else sum((bg & FM) << (i * bits) for i in range(bt // bits + 1)) & AM
+                        if ai == k:
+                            v ^= fl
+                        if dom:
+                            v = dom(v)
+                        args.append(v)
+                    yield args
+                    out += 1
+                    if out >= 96:
+                        return
+
+
 def _find_witness(actual, expected, argspecs, names, lane_bits, seed, env_ok, watch, modes, fp):
+    import itertools
     sz = max(1, T.size(actual) + T.size(expected))
     budget = max(24, min(2600, 600000 // sz))
     cost = max(1, sz // 8) * (6 if fp else 1) * len(modes)
-    for ne, args in enumerate(gen_envs(argspecs, seed)):
+    probes = list(itertools.islice(_cross_lane_envs(actual, argspecs, lane_bits), 120))
+    probes = list(_dep_diff_envs(actual, expected, argspecs)) + probes
+    if EXTRA_POINTS[0] and names:
+        ex = []
+        for pt in EXTRA_POINTS[0]:
+            args = []
+            for ai, (b, lb, dom) in enumerate(argspecs):
+                nm = names[ai] if ai < len(names) else None
+                if nm not in pt:
+                    args.append(0)
+                    continue
+                v = pt[nm]
+                if lb:
+                    v &= (1 << lb) - 1
+                    v = sum(v << (l * lb) for l in range(b // lb))
+                if dom:
+                    v = dom(v)
+                args.append(v)
+            ex.append(args)
+        probes = ex + probes
+    budget += len(probes)
+    for ne, args in enumerate(itertools.chain(probes, gen_envs(argspecs, seed))):
         if ne >= budget:
             break
         if env_ok is not None:
@@ -213,9 +377,16 @@ def _find_witness(actual, expected, argspecs, names, lane_bits, seed, env_ok, wa
             return
 
 
+def _mem_byte(a):
+    """contents of the (arbitrary) initial memory at byte address a: every address bit matters, so two
+    closed forms that read different addresses - even 2^32 apart - are told apart"""
+    a &= (1 << 64) - 1
+    return ((((a * 0x9E3779B97F4A7C15) & ((1 << 64) - 1)) >> 51) ^ (a * 131) ^ 0x5B) & 0xFF
+
+
 def _one_env(actual, expected, args, names, lane_bits, watch, rm, fp):
     if True:
-        env = {"args": args, "mem": lambda a: ((a * 131) ^ (a >> 7) ^ 0x5B) & 0xFF, "rm": rm}
+        env = {"args": args, "mem": _mem_byte, "rm": rm}
         if watch:
             env = dict(env, watch=None)
         try:
@@ -257,7 +428,7 @@ def _one_env(actual, expected, args, names, lane_bits, watch, rm, fp):
 def interpreted(t):
     """True when every operator in t has an exact evaluation in term.ev"""
     OK = {"const", "arg", "mem", "concat", "slice", "rep", "not", "and", "or", "xor", "add", "mul", "sub",
-          "neg", "icmp", "fcmp", "select", "popsum", "x86.fpclass", "satus", "satss", "fadd", "fsub", "fmul", "fdiv", "call:llvm.sqrt", "call:llvm.fabs", "shlsat", "lshrsat", "ashrsat", "shl", "lshr", "ashr",
+          "neg", "icmp", "fcmp", "select", "popsum", "x86.fpclass", "x86.pshufb", "tabload", "x86.getexp", "x86.getmant", "x86.fixupimm", "x86.range", "x86.permx", "x86.divq.q", "x86.divq.r", "satus", "satss", "fadd", "fsub", "fmul", "fdiv", "call:llvm.sqrt", "call:llvm.fabs", "shlsat", "lshrsat", "ashrsat", "shl", "lshr", "ashr",
           "fshl", "fshr", "call:llvm.ctpop", "call:llvm.ctlz", "call:llvm.cttz", "call:llvm.bswap",
           "call:llvm.bitreverse", "call:llvm.abs", "call:llvm.umin", "call:llvm.umax",
           "call:llvm.smin", "call:llvm.smax", "call:llvm.uadd.sat", "call:llvm.usub.sat",
